@@ -13,6 +13,7 @@ import (
 // StoreCommit (C03.O2): Store.Store / Store.BatchStore return a nil error only as the verdict of a badger commit
 // that wrote exactly the given keys and values.
 func (c *Ctx) StoreCommit(prop string, s *Slashing) {
+	prop = "C03"
 	rule := prop + ".O2 commit"
 	dbUpdate := "(*" + pkgBadger + ".DB).Update"
 	wbFlush := "(*" + pkgBadger + ".WriteBatch).Flush"
@@ -267,6 +268,7 @@ func (c *Ctx) Recorders(s *Slashing) map[*ssa.Function]bool {
 // RecordBeforeApprove (C01/C02.O7, C03.O4): in each entry method, no APPROVED verdict leaves without the
 // nil-error edge of a recorder call (or a blanket overwrite of the verdict slice by a non-approving constant).
 func (c *Ctx) RecordBeforeApprove(prop string, s *Slashing, kind string) {
+	prop = homeProp(kind)
 	rule := prop + ".O7 record"
 	rec := c.Recorders(s)
 	isRec := func(ci ssa.CallInstruction) bool {
